@@ -16,6 +16,8 @@
      Forced(n,d)           ReportUnavailableForced
      Ignorable(n,d)        ReportUnavailable with a cancellation / teardown error: no effect
      Suppress(b)           Begin/EndReloadProxyFailureSuppression
+     Reload                a new generation of dialers takes over: RestoreHealthSnapshot(old.ReloadHealthSnapshot()) - the last
+                           known alive state of every domain is handed over, the failure counters start from zero
    The escalation (EscalateAt death transitions of one address without a success in between) forces all
    domains of the reporting node down.
 
@@ -39,9 +41,10 @@ CONSTANTS Nodes, Domains, AddrOf,          \* AddrOf : [Nodes -> addresses]
 Addrs == {AddrOf[n] : n \in Nodes}
 
 VARIABLES alive, failCount, trafficFail, deaths, suppressed,
-          cbs,          \* ghost: Seq([n, d, alive]) transition callbacks
+          cbs,          \* ghost: Seq([n, d, alive]) transition callbacks of the current generation
+          gen0,         \* ghost: the alive state the current generation started with
           hist
-vars == <<alive, failCount, trafficFail, deaths, suppressed, cbs, hist>>
+vars == <<alive, failCount, trafficFail, deaths, suppressed, cbs, gen0, hist>>
 
 Init ==
   /\ alive = [n \in Nodes |-> [d \in Domains |-> TRUE]]        \* NewDialer starts every collection alive
@@ -50,6 +53,7 @@ Init ==
   /\ deaths = [a \in Addrs |-> 0]
   /\ suppressed = FALSE
   /\ cbs = <<>>
+  /\ gen0 = [n \in Nodes |-> [d \in Domains |-> TRUE]]
   /\ hist = <<>>
 
 (* ------------- helpers: a set of (node,domain) forced down; callbacks for those that were alive ------------- *)
@@ -85,8 +89,8 @@ Fail(n, d, isTraffic, k) ==
      /\ trafficFail' = IF esc THEN EscFail(tf1, n) ELSE tf1
      /\ cbs' = cbs \o cb1 \o (IF esc THEN EscCbs(al1, n) ELSE <<>>)
 
-ProbeFail(n, d) == /\ Fail(n, d, FALSE, 1) /\ UNCHANGED suppressed /\ hist' = Append(hist, Rec("ProbeFail", n, d, 1))
-TrafficFail(n, d, k) == /\ Fail(n, d, TRUE, k) /\ UNCHANGED suppressed /\ hist' = Append(hist, Rec("TrafficFail", n, d, k))
+ProbeFail(n, d) == /\ Fail(n, d, FALSE, 1) /\ UNCHANGED <<suppressed, gen0>> /\ hist' = Append(hist, Rec("ProbeFail", n, d, 1))
+TrafficFail(n, d, k) == /\ Fail(n, d, TRUE, k) /\ UNCHANGED <<suppressed, gen0>> /\ hist' = Append(hist, Rec("TrafficFail", n, d, k))
 
 ProbeOk(n, d) ==
   /\ alive' = [alive EXCEPT ![n][d] = TRUE]
@@ -94,7 +98,7 @@ ProbeOk(n, d) ==
   /\ trafficFail' = [trafficFail EXCEPT ![n][d] = 0]
   /\ deaths' = [deaths EXCEPT ![AddrOf[n]] = 0]
   /\ cbs' = IF alive[n][d] THEN cbs ELSE Append(cbs, [n |-> n, d |-> d, alive |-> TRUE])
-  /\ UNCHANGED suppressed /\ hist' = Append(hist, Rec("ProbeOk", n, d, 0))
+  /\ UNCHANGED <<suppressed, gen0>> /\ hist' = Append(hist, Rec("ProbeOk", n, d, 0))
 
 TrafficOk(n, d) ==
   /\ IF d \in Revivable /\ ~alive[n][d]
@@ -104,23 +108,31 @@ TrafficOk(n, d) ==
           /\ cbs' = Append(cbs, [n |-> n, d |-> d, alive |-> TRUE])
      ELSE UNCHANGED <<alive, failCount, deaths, cbs>>
   /\ trafficFail' = [trafficFail EXCEPT ![n][d] = 0]
-  /\ UNCHANGED suppressed /\ hist' = Append(hist, Rec("TrafficOk", n, d, 0))
+  /\ UNCHANGED <<suppressed, gen0>> /\ hist' = Append(hist, Rec("TrafficOk", n, d, 0))
 
 Forced(n, d) ==
   /\ alive' = [alive EXCEPT ![n][d] = FALSE]
   /\ failCount' = [failCount EXCEPT ![n][d] = ThrTraffic[d]]
   /\ trafficFail' = [trafficFail EXCEPT ![n][d] = ThrTraffic[d]]
   /\ cbs' = IF alive[n][d] THEN Append(cbs, [n |-> n, d |-> d, alive |-> FALSE]) ELSE cbs
-  /\ UNCHANGED <<deaths, suppressed>> /\ hist' = Append(hist, Rec("Forced", n, d, 0))
+  /\ UNCHANGED <<deaths, suppressed, gen0>> /\ hist' = Append(hist, Rec("Forced", n, d, 0))
 
-Ignorable(n, d) == /\ UNCHANGED <<alive, failCount, trafficFail, deaths, suppressed, cbs>> /\ hist' = Append(hist, Rec("Ignorable", n, d, 0))
-Suppress(b) == /\ suppressed # b /\ suppressed' = b /\ UNCHANGED <<alive, failCount, trafficFail, deaths, cbs>>
+Ignorable(n, d) == /\ UNCHANGED <<alive, failCount, trafficFail, deaths, suppressed, cbs, gen0>> /\ hist' = Append(hist, Rec("Ignorable", n, d, 0))
+Suppress(b) == /\ suppressed # b /\ suppressed' = b /\ UNCHANGED <<alive, failCount, trafficFail, deaths, cbs, gen0>>
                /\ hist' = Append(hist, Rec((IF b THEN "SuppressOn" ELSE "SuppressOff"), 0, "", 0))
+
+\* the hand-over to a new generation: states kept, counters from zero, a fresh callback history
+Reload == /\ failCount' = [n \in Nodes |-> [d \in Domains |-> 0]]
+          /\ trafficFail' = [n \in Nodes |-> [d \in Domains |-> 0]]
+          /\ gen0' = alive /\ cbs' = <<>>
+          /\ UNCHANGED <<alive, deaths, suppressed>>
+          /\ hist' = Append(hist, Rec("Reload", 0, "", 0))
 
 Next == /\ Len(hist) < MaxHist
         /\ \/ \E n \in Nodes, d \in Domains : ProbeOk(n, d) \/ ProbeFail(n, d) \/ TrafficOk(n, d) \/ Forced(n, d) \/ Ignorable(n, d)
            \/ \E n \in Nodes, d \in Domains : \E k \in Bursts[d] : TrafficFail(n, d, k)
            \/ \E b \in BOOLEAN : Suppress(b)
+           \/ Reload
 Spec == Init /\ [][Next]_vars
 
 (* ---------------- property layer ---------------- *)
@@ -136,14 +148,17 @@ ReviveRule == [][\A n \in Nodes, d \in Domains :
 \* nothing changes while muted, except through successes and forced reports
 MutedRule == [][(suppressed /\ suppressed') =>
                    \A n \in Nodes, d \in Domains : (alive[n][d] /\ ~alive'[n][d]) => failCount'[n][d] = ThrTraffic[d]]_vars
-\* transition callbacks alternate per (node, domain) and start with a death (nodes start alive)
+\* transition callbacks alternate per (node, domain), starting from the state the generation began with
 CbsOf(n, d) == SelectSeq(cbs, LAMBDA c : c.n = n /\ c.d = d)
 EdgeOnly == \A n \in Nodes, d \in Domains :
                LET s == CbsOf(n, d) IN
-               /\ \A i \in DOMAIN s : s[i].alive = (i % 2 = 0)
-               /\ alive[n][d] = (Len(s) % 2 = 0)
+               /\ \A i \in DOMAIN s : s[i].alive = (IF i % 2 = 0 THEN gen0[n][d] ELSE ~gen0[n][d])
+               /\ alive[n][d] = (IF Len(s) % 2 = 0 THEN gen0[n][d] ELSE ~gen0[n][d])
 DeathsBounded == \A a \in Addrs : deaths[a] < EscalateAt
-View == <<alive, failCount, trafficFail, deaths, suppressed>>
+\* a dead node whose counters were zeroed by the hand-over still comes back by the documented means
+HandedOverRevives == [][\A n \in Nodes, d \in Domains :
+                         (Len(hist') > Len(hist) /\ hist'[Len(hist')].a \in {"ProbeOk"} /\ hist'[Len(hist')].n = n /\ hist'[Len(hist')].d = d) => alive'[n][d]]_vars
+View == <<alive, failCount, trafficFail, deaths, suppressed, gen0>>
 
 Behaviour == [hist |-> hist, alive |-> alive, cbs |-> cbs]
 Emit == Len(hist) = MaxHist => PrintT(<<"BEHAVIOUR", ToJson(Behaviour)>>)
